@@ -199,6 +199,15 @@ class HistGen:
         for i, o in enumerate(self.ops[:-1]):                  # some transactions arrive right behind a harvest request
             if o["op"] == "tick" and self.ops[i + 1]["op"] == "txn" and self.rng.random() < 0.6:
                 o["fuse"] = True
+        i = 0                                                  # runs of transactions arriving back to back on one connection
+        while i < len(self.ops):
+            j = i
+            while j < len(self.ops) and self.ops[j]["op"] == "txn" and not (j > 0 and self.ops[j - 1].get("fuse")):
+                j += 1
+            if j - i >= 2 and self.rng.random() < 0.5:
+                for o in self.ops[i:j]:
+                    o["wire"] = True
+            i = max(j, i + 1)
         return {"ops": self.ops, "profile": self.profile, "complete": complete}
 
     def p_all_ok(self):
@@ -534,6 +543,32 @@ class HistGen:
         self.ops.append({"op": "appinfo", "key": 260, "dt": False, "id": None})
 
 
+    def p_tablefull(self):
+        """C03: verdicts are remembered when the application table is full and everybody has been silent for long
+        (seeded/C03g1: a sweep of idle applications that hold no run forgot the terminal ones)"""
+        rng = self.rng
+        verdicts = [rng.choice(["410", "401"]) for _ in range(rng.choice([1, 2, 3]))]
+        for k, v in enumerate(verdicts, start=1):
+            self.ops.append({"op": "appinfo", "key": k, "dt": False, "id": None})
+            if rng.random() < 0.5:
+                self.answer_connect(v, "ok")
+            else:
+                self.answer_connect("ok", v)
+        nterm = len(verdicts)
+        run = self.connect(nterm + 1)
+        self.txn(run, rich=0.2)
+        fill = rng.choice([248, 249, 250, 251])            # around the limit of 250
+        for k in range(nterm + 2, fill + 1):
+            self.ops.append({"op": "appinfo", "key": k, "dt": False, "id": None})
+        self.advance(rng.choice([601, 700, 5000]))
+        for k in (300, 301):
+            self.ops.append({"op": "appinfo", "key": k, "dt": False, "id": None})
+        for k in range(1, nterm + 2):
+            self.ops.append({"op": "appinfo", "key": k, "dt": False, "id": None})
+        self.ops.append({"op": "appinfo", "key": 302, "dt": False, "id": None})
+        self.ops.append({"op": "appinfo", "key": 1, "dt": False, "id": None})
+
+
 def gen_histories(rng, n, profiles):
     names = list(profiles.keys())
     ws = [profiles[k] for k in names]
@@ -775,6 +810,23 @@ def go_ops(ops):
             skip = True
         else:
             out.append(o)
+    # transactions marked "wire" that follow each other: the first carries the others ("burst"), their own steps are empty
+    i = 0
+    while i < len(out):
+        o = out[i]
+        if o.get("op") == "txn" and o.get("wire"):
+            j = i + 1
+            while j < len(out) and out[j].get("op") == "txn" and out[j].get("wire"):
+                j += 1
+            if j - i >= 2:
+                t = dict(o)
+                t["burst"] = out[i + 1:j]
+                out[i] = t
+                for k in range(i + 1, j):
+                    out[k] = {"op": "nop"}
+            i = j
+        else:
+            i += 1
     return out
 
 
